@@ -177,6 +177,12 @@ func (s *sut) apply(f []string) (out string) {
 		}
 		r := pxds.VerifShouldRespondDelta(s.dcon, req)
 		return fmt.Sprintf("%s %s", wire.B(r), s.showState())
+	case "always":
+		// another type's new watch marked this one AlwaysRespond (warming): set it on the real record
+		if w := s.proxy.WatchedResources[typeURL[f[1]]]; w != nil {
+			w.AlwaysRespond = true
+		}
+		return s.showState()
 	case "dsend":
 		s.ds.fail = f[4] != "1"
 		var names sets.String
@@ -495,6 +501,8 @@ func gen(stream string, seed uint64, n int, outp string) {
 					out.Line("dsend", t, wire.Enc(nn), names, wire.B(ok))
 				case r.Chance(1, 4) && lastSent[t] != "":
 					out.Line("dreq", t, "-", "-", "-", wire.Enc(lastSent[t]), "-")
+				case r.Chance(1, 8):
+					out.Line("always", t)
 				default:
 					univ := append([]string{"*"}, nameUniverse...)
 					sub := wire.Subset(r, univ, 1, 3)
